@@ -22,6 +22,12 @@ mod c03;
 mod c04;
 mod c05;
 mod c06;
+mod c07;
+mod c08;
+mod conn;
+mod exec;
+mod handler;
+mod transport;
 mod c15;
 mod c16;
 mod c17;
@@ -110,6 +116,8 @@ fn main() {
         "C04" => c04::run_all(&ctx, evidence.as_ref()),
         "C05" => c05::run(&ctx, evidence.as_ref()),
         "C06" => c06::run(&ctx, evidence.as_ref()),
+        "C07" => c07::run(&ctx, evidence.as_ref()),
+        "C08" => c08::run(&ctx, evidence.as_ref()),
         "C15" => c15::run(&ctx, evidence.as_ref()),
         "C16" => c16::run(&ctx, evidence.as_ref()),
         "C17" => c17::run(&ctx, evidence.as_ref()),
